@@ -90,6 +90,14 @@ type LoadSpec struct {
 	Overlay  map[string][]byte // absolute path -> content
 }
 
+// LoadError: the packages did not type-check; Files = files the errors are located in.
+type LoadError struct {
+	Files map[string]bool
+	Msg   string
+}
+
+func (e *LoadError) Error() string { return e.Msg }
+
 func loadEngine(spec LoadSpec, cfg Config) (*Engine, error) {
 	pcfg := &packages.Config{
 		Mode: packages.NeedName | packages.NeedFiles | packages.NeedCompiledGoFiles | packages.NeedImports |
@@ -104,16 +112,20 @@ func loadEngine(spec LoadSpec, cfg Config) (*Engine, error) {
 	}
 	nerr := 0
 	var msgs []string
+	files := map[string]bool{}
 	packages.Visit(pkgs, nil, func(p *packages.Package) {
 		for _, e := range p.Errors {
 			nerr++
+			if i := strings.Index(e.Pos, ":"); i > 0 {
+				files[e.Pos[:i]] = true
+			}
 			if len(msgs) < 20 {
 				msgs = append(msgs, p.PkgPath+": "+e.Error())
 			}
 		}
 	})
 	if nerr > 0 {
-		return nil, fmt.Errorf("package load errors (%d):\n%s", nerr, strings.Join(msgs, "\n"))
+		return nil, &LoadError{Files: files, Msg: fmt.Sprintf("package load errors (%d):\n%s", nerr, strings.Join(msgs, "\n"))}
 	}
 	prog, _ := ssautil.AllPackages(pkgs, ssa.InstantiateGenerics)
 	prog.Build()
@@ -584,6 +596,16 @@ func cleanModel(m map[string]uint64) map[string]uint64 {
 
 // buildOverlay maps harness files under harnessDir/<rel>/ to repo/<rel>/ .
 // mode "sym" skips *_native.go, mode "native" skips *_sym.go.
+// overlayFallbacks: overlay target -> alternative content (harness file X.go with a
+// sibling X.go.fallback), filled by buildOverlay.  A fallback replaces a harness file that
+// no longer type-checks against the tree under test because it names an unexported field
+// or function that a change removed; it offers the same helper functions without them.
+var overlayFallbacks = map[string][]byte{}
+
+// useFallbacks: overlay targets (relative to the repository root) for which buildOverlay
+// puts the fallback content in place of the primary file.
+var useFallbacks = map[string]bool{}
+
 func buildOverlay(repoDir, harnessDir string, sets []string, mode string) (map[string][]byte, []string, error) {
 	ov := map[string][]byte{}
 	var pkgsWithRT []string
@@ -615,6 +637,12 @@ func buildOverlay(repoDir, harnessDir string, sets []string, mode string) (map[s
 			target := filepath.Join(repoDir, filepath.Dir(rel), "zz_verif_"+strings.TrimSuffix(base, ".go")+".go")
 			if strings.HasSuffix(base, "_test.go") {
 				target = filepath.Join(repoDir, filepath.Dir(rel), "zz_verif_"+base)
+			}
+			if fb, ferr := os.ReadFile(path + ".fallback"); ferr == nil {
+				overlayFallbacks[target] = fb
+				if rt, _ := filepath.Rel(repoDir, target); useFallbacks[rt] {
+					data = fb
+				}
 			}
 			ov[target] = data
 			// does this package use the runtime? (marker comment)
